@@ -158,6 +158,15 @@ def handle (ts : List String) : String :=
       match dispatch TS CS order v (decodeStr line).toList with
       | some (k, vals) => k ++ " " ++ fmtVals vals
       | none => "none"
+  | ["offsets", name, line] =>
+    " ".intercalate ((offsetsLine TS CS name (decodeStr line).toList).map fun o =>
+      match o with | some k => toString k | none => "-")
+  | "loadfile" :: lines =>
+    (match loadFile TS CS (lines.map fun l => (decodeStr l).toList) with
+     | some ((a, b, c), parsed) =>
+       "V(" ++ toString a ++ "," ++ toString b ++ "," ++ toString c ++ ")" ++
+         String.join (parsed.map fun (k, vals) => " | " ++ k ++ " " ++ fmtVals vals)
+     | none => "err")
   | ["version", line] =>
     match getVersion TS (decodeStr line).toList with
     | some (a, b, c) => "V(" ++ toString a ++ "," ++ toString b ++ "," ++ toString c ++ ")"
